@@ -113,8 +113,8 @@ static void clean_root(void)
 
 /* ---------- layered reads: callback policy, fopen log ---------- */
 static TL int in_lib = 0;                 /* a library call is in progress */
-static TL char *open_log[256]; static TL int n_open = 0;
-static TL char *check_log[256]; static TL int check_ok[256]; static TL int n_check = 0;
+static TL char *open_log[4096]; static TL int n_open = 0;
+static TL char *check_log[4096]; static TL int check_ok[4096]; static TL int n_check = 0;
 static TL char *reject[64]; static TL int n_reject = 0;
 static TL int cb_mode = 0;                /* 0: no callback, 1: reject listed paths */
 static TL int cb_data_token = 4711; static TL int cb_data_bad = 0;
@@ -123,7 +123,7 @@ FILE *__real_fopen(const char *path, const char *mode);
 FILE *__wrap_fopen(const char *path, const char *mode)
 {
   FILE *f = __real_fopen(path, mode);
-  if (in_lib && f && mode[0] == 'r' && n_open < 256) open_log[n_open++] = strdup(path);
+  if (in_lib && f && mode[0] == 'r' && n_open < 4096) open_log[n_open++] = strdup(path);
   return f;
 }
 
@@ -147,7 +147,7 @@ static bool the_callback(const char *filename, const void *data)
   }
   int ok = 1;
   for (int i = 0; i < n_reject; i++) if (!strcmp(reject[i], virt(filename))) ok = 0;
-  if (n_check < 256) { check_log[n_check] = strdup(filename); check_ok[n_check++] = ok; }
+  if (n_check < 4096) { check_log[n_check] = strdup(filename); check_ok[n_check++] = ok; }
   /* what a callback leaves in errno says nothing about the file: every second verdict comes with ENOENT set
      (as after a look-up of a companion file that does not exist), the others with errno cleared */
   errno = (n_check & 1) ? ENOENT : 0;
@@ -789,6 +789,19 @@ static void *thread_main(void *p)
 int main(int argc, char **argv)
 {
   umask(022);          /* files 0644, directories 0755 whatever the caller's umask is */
+  if (argc >= 6 && !strcmp(argv[1], "--threads") && !strcmp(argv[2], "--pre")) {
+    /* "--threads --pre <file> <root> <scenario>...": the commands of <file> (process-wide settings: sec, perms,
+       confdirs) are run by the MAIN thread before the worker threads start; the settings are documented as global,
+       so every worker's reads are subject to them */
+    struct targ *pa = calloc(1, sizeof *pa);
+    thread_mode = 1;
+    mkdir(argv[4], 0755);
+    snprintf(pa->rootdir, sizeof pa->rootdir, "%s/pre", argv[4]);
+    snprintf(pa->scen, sizeof pa->scen, "%s", argv[3]); pa->ix = -1;
+    thread_main(pa);
+    free(pa->buf); free(pa);
+    argv[3] = argv[1]; argv += 2; argc -= 2;
+  }
   if (argc >= 4 && !strcmp(argv[1], "--threads")) {
     int k = argc - 3; thread_mode = 1;
     mkdir(argv[2], 0755);
